@@ -7,4 +7,4 @@ From VV Require Import Base.F64 Base.Values Interp.Strategy Cxx.CxxMini Gen.Prim
 Extraction "interp_model.ml" prims_all strategy_of prim_sym variable_sym constant_sym
   genome_of_cells wf_genome_b gene_at tree_of active_tree tree_size
   init_state set_example run_locus run run_ex run_many valid_entries
-  den asked_at vars_of show_res F64.of_bits F64.to_bits.
+  den asked_at vars_of show_res penalty_locus team_run F64.of_bits F64.to_bits.
